@@ -243,7 +243,7 @@ let str_fail = function FailNone -> "none" | FailRead -> "read" | FailSetBaud ->
 let str_settings (s : settings) = Printf.sprintf "%s %s %s %s %s" (str_baud s.s_baud) (str_csize s.s_csize)
     (str_parity s.s_parity) (str_stop s.s_stop) (str_flow s.s_flow)
 
-let handle_io (toks : string list) : string =
+let rec handle_io (toks : string list) : string =
   match toks with
   | "RD" :: k :: content :: sched ->
     let r = ref { r_content = bytes_of_hex content; r_sched = List.map rd_ev_of_str sched } in
@@ -285,6 +285,7 @@ let handle_io (toks : string list) : string =
          Printf.sprintf "%s | %s | %s"
            (match res with Ok r -> "OK " ^ str_omsg r | Err _ -> "ER")
            (hex_of_bytes p'.pt_out.w_out) (hex_of_bytes p'.pt_in.r_content))
+  | ["SBD"; m; tape; _] -> handle_io ["SB"; m; tape; "/"]   (* how long the reply takes to arrive is of no concern to the model *)
   | ["TMS"; n; st] ->
     (* n state queries in a row on one bus, each answered by a report of that state: from the model's trace, which
        exchanges sleep at least 100 ms after their reply *)
@@ -579,6 +580,33 @@ let rec handle (line : string) : string =
                     if (not last_only) || i + 1 = n then
                       Buffer.add_string out (Printf.sprintf "%s/%s " (str_omsg r) (obs s'))) msgs;
     Printf.sprintf "%s# %s" (Buffer.contents out) (str_pages !s.v_pages)
+  | "BUSP" :: k :: rest ->
+    (* a bus made of signs that have a history of their own: "i~msg" tokens before the bar are given to sign i alone,
+       before the bus exists; after the bar as BUS *)
+    let (signs, rest) = parse_signs (int_of_string k) rest in
+    let (pre, msgs) = split_at "|" rest in
+    let arr = Array.of_list signs in
+    let dead = ref false in
+    List.iter (fun tok ->
+        match String.index_opt tok '~' with
+        | None -> failwith "BUSP"
+        | Some j ->
+          let i = int_of_string (String.sub tok 0 j) and m = String.sub tok (j + 1) (String.length tok - j - 1) in
+          (match vstep arr.(i) (msg_of_str m) with
+           | None -> dead := true
+           | Some (s', _) -> arr.(i) <- s')) pre;
+    if !dead then "PANIC-PRIOR" else
+      let b = ref (Array.to_list arr) in
+      let out = Buffer.create 256 in
+      let dead = ref false in
+      List.iter (fun m -> if not !dead then
+                    match bus_step !b (msg_of_str m) with
+                    | None -> dead := true; Buffer.add_string out "PANIC "
+                    | Some (b', r) -> b := b';
+                      Buffer.add_string out (str_omsg r);
+                      List.iter (fun s -> Buffer.add_string out ("/" ^ obs s)) b';
+                      Buffer.add_char out ' ') msgs;
+      Printf.sprintf "%s# %s" (Buffer.contents out) (String.concat ";" (List.map (fun s -> str_pages s.v_pages) !b))
   | "BUS" :: k :: rest ->
     let (signs, msgs) = parse_signs (int_of_string k) rest in
     let b = ref signs in
